@@ -117,8 +117,8 @@ func (vc *FuncVC) buildDefs() map[string][]defPoint {
 }
 
 // resolver returns the name lookup function for program point (b, idx) with state st.
-func (vc *FuncVC) resolver(defs map[string][]defPoint, b *ssa.BasicBlock, idx int, st *State, phiOv map[ssa.Value]Term, extra map[string]SVal) func(string) (SVal, bool) {
-	return func(name string) (SVal, bool) {
+func (vc *FuncVC) resolver(defs map[string][]defPoint, b *ssa.BasicBlock, idx int, _ *State, phiOv map[ssa.Value]Term, extra map[string]SVal) func(string, *State) (SVal, bool) {
+	return func(name string, st *State) (SVal, bool) {
 		if v, ok := extra[name]; ok {
 			return v, true
 		}
@@ -406,6 +406,13 @@ func (vc *FuncVC) run() {
 		vc.assume(True, vc.allocFacts(st, t, p.Type(), 0))
 		if _, ok := under(p.Type()).(*types.Pointer); ok {
 			vc.assume(True, Not(Eq(t, Null)))
+			// a captured variable is a cell of its own
+			vc.assume(True, And(Eq(App(SInt, "rkind", t), IntLit(0)), Eq(App(SRef, "root", t), t), App(SBool, "iscell", t)))
+			for j := 0; j < i; j++ {
+				if _, ok := under(fn.FreeVars[j].Type()).(*types.Pointer); ok {
+					vc.assume(True, Not(Eq(t, vc.vals[fn.FreeVars[j]])))
+				}
+			}
 		}
 	}
 	defs := vc.buildDefs()
@@ -437,6 +444,19 @@ func (vc *FuncVC) run() {
 		}
 	}
 	vc.assumeAxioms(entryEnv)
+	if cb := vc.callbackSpec(); cb != nil {
+		e := *entryEnv
+		e.vars = map[string]SVal{"cb_err": {Term{"nil_iface", SIface}, types.Universe.Lookup("error").Type()}}
+		for _, inv := range cb.Invariants {
+			e.ctx = inv.Ctx
+			t, err := e.Bool(inv.Expr)
+			if err != nil {
+				vc.errorf("%s: callback invariant (closure entry): %v", inv.Where, err)
+				continue
+			}
+			vc.assume(True, t)
+		}
+	}
 	if vc.con != nil {
 		for _, r := range vc.con.Requires {
 			e := *entryEnv
@@ -895,6 +915,11 @@ func (vc *FuncVC) frameCheckAddr(b *ssa.BasicBlock, pos token.Pos, addrV ssa.Val
 	if !vc.withFrame {
 		return
 	}
+	if _, isFree := addrV.(*ssa.FreeVar); isFree {
+		// a variable captured by reference is the closure's own state; what it may become is governed by the
+		// enclosing function's callback invariant, not by a frame
+		return
+	}
 	a := vc.localAllocOf(addrV)
 	var goals []Term
 	for _, fr := range vc.activeFrames(b) {
@@ -957,6 +982,11 @@ func (vc *FuncVC) instr(b *ssa.BasicBlock, idx int, ins ssa.Instruction, st *Sta
 		et := derefType(x.Type())
 		a := vc.allocObject(st, "a_"+x.Name(), reach)
 		vc.vals[x] = a
+		if containsArray(et, 0) {
+			vc.emit("(assert (not (iscell %s)))", a.S)
+		} else {
+			vc.emit("(assert (iscell %s))", a.S)
+		}
 		vc.zeroInit(st, a, et)
 	case *ssa.Store:
 		addr := vc.val(x.Addr)
@@ -1054,6 +1084,7 @@ func (vc *FuncVC) instr(b *ssa.BasicBlock, idx int, ins ssa.Instruction, st *Sta
 		vc.vals[x] = m
 	case *ssa.MakeSlice:
 		a := vc.allocObject(st, "arr_"+x.Name(), reach)
+		vc.emit("(assert (not (iscell %s)))", a.S)
 		ln := vc.val(x.Len)
 		cp := vc.val(x.Cap)
 		vc.safetyOb("makeslice", "make([]T, len, cap) with 0 <= len <= cap", x.Pos(), reach, And(App(SBool, "<=", IntLit(0), ln), App(SBool, "<=", ln, cp)))
@@ -1565,6 +1596,12 @@ func (vc *FuncVC) ret(b *ssa.BasicBlock, idx int, x *ssa.Return, st *State, defs
 		res = append(res, vc.val(r))
 	}
 	extra := vc.resultVars(res, vc.fn.Signature.Results())
+	// in postconditions a parameter name means the value the function was called with
+	for _, p := range vc.fn.Params {
+		if _, clash := extra[p.Name()]; !clash {
+			extra[p.Name()] = SVal{vc.val(p), p.Type()}
+		}
+	}
 	for i, n := range vc.con.ResultNames {
 		if i < len(res) {
 			extra[n] = SVal{res[i], vc.fn.Signature.Results().At(i).Type()}
@@ -1585,6 +1622,19 @@ func (vc *FuncVC) ret(b *ssa.BasicBlock, idx int, x *ssa.Return, st *State, defs
 		}
 		kind := fmt.Sprintf("post:%s@ret%d", lab, vc.retN)
 		vc.oblige(kind, en.Label, "postcondition at return site "+fmt.Sprint(vc.retN)+": "+en.Raw, x.Pos(), vc.reach[b], t)
+	}
+	if cb := vc.callbackSpec(); cb != nil && len(res) > 0 {
+		cenv := *env
+		cenv.vars = map[string]SVal{"cb_err": {res[len(res)-1], types.Universe.Lookup("error").Type()}}
+		for _, inv := range cb.Invariants {
+			cenv.ctx = inv.Ctx
+			t, err := cenv.Bool(inv.Expr)
+			if err != nil {
+				vc.errorf("%s: callback invariant (closure return): %v", inv.Where, err)
+				continue
+			}
+			vc.oblige(fmt.Sprintf("cb-inv-keep@ret%d", vc.retN), inv.Label, "callback invariant is re-established by the closure at return site "+fmt.Sprint(vc.retN)+": "+inv.Raw, x.Pos(), vc.reach[b], t)
+		}
 	}
 	for _, en := range vc.con.LocalEnsures {
 		env.ctx = en.Ctx
@@ -1726,4 +1776,33 @@ func (vc *FuncVC) assumeAxioms(entryEnv *Env) {
 		vc.assume(True, t)
 		vc.assumed["axiom "+ax.Label+": "+ax.Raw] = true
 	}
+}
+
+// callbackSpec returns the callback invariant that the enclosing function's contract attaches to this closure.
+func (vc *FuncVC) callbackSpec() *LoopSpec {
+	if vc.fn == nil || vc.fn.Parent() == nil {
+		return nil
+	}
+	pc := vc.S.Contracts[FuncKey(vc.fn.Parent())]
+	if pc == nil || pc.Callback == nil {
+		return nil
+	}
+	return pc.Callback[closureOrdinal(vc.fn)]
+}
+
+func containsArray(t types.Type, depth int) bool {
+	if depth > 3 {
+		return true
+	}
+	switch u := under(t).(type) {
+	case *types.Array:
+		return true
+	case *types.Struct:
+		for i := 0; i < u.NumFields(); i++ {
+			if containsArray(u.Field(i).Type(), depth+1) {
+				return true
+			}
+		}
+	}
+	return false
 }
